@@ -82,7 +82,15 @@ def judge (j : Json) : Except String Json := do
         if own ≥ count && (j.getObjValAs? Bool "countApplies").toOption.getD false then
           if handed.map (·.id) != ((ownActive st client).take count).map (·.id) then countOK := false
   | .error _ => pure ()
-  return Json.mkObj [("lifecycle", toJson lifecycle), ("fresh", toJson fresh), ("nodup", toJson nodup),
+  -- the documented error table (c01_error_table) on the state BEFORE the call
+  let spec : Json := match j.getObjVal? "req" with
+    | .ok rq => match reqOfJson rq with
+      | .ok r => match specError before r with
+        | some (c, v) => toJson #[codeStr c, (match v with | .handled => "handled" | .raw => "raw")]
+        | none => .null
+      | .error _ => .null
+    | .error _ => .null
+  return Json.mkObj [("specError", spec), ("lifecycle", toJson lifecycle), ("fresh", toJson fresh), ("nodup", toJson nodup),
     ("clients", toJson clients), ("pendingFree", toJson pendingFree), ("noActiveEs", toJson noActiveEs),
     ("handedOK", toJson handedOK), ("countOK", toJson countOK), ("expectedCount", expected), ("bad", toJson bad)]
   where
